@@ -9,7 +9,7 @@ FRESH_PROCESS = False
 CASE_TIMEOUT = "10s"
 RULE = ("synthesised histories (0-40 commits, 1-5 authors, 1-12 live files) of add/modify/delete/rename "
         "operations over file identities, renames printed in git's brace and full-path notations (incl. "
-        "moves into / out of a directory, to the root, chains of renames), delete-then-recreate, repeated "
+        "moves into / out of a directory, to the root, out of / into a directory whose name contains braces, chains of renames), delete-then-recreate, repeated "
         "touches, commits that list no file, ties in the sort keys, conventional and plain commit messages; non-trivial = at least one "
         "rename or delete; distinct = distinct input"
         '; a wide_repo stream: histories with 17-27 files and authors materialised as real repositories and read through the tables of `coca git -b`, `-t`, `-o` (no -f)')
@@ -143,9 +143,21 @@ def family(rng, kind):
             cs.append(["e00000%d" % (i + 1), rng.choice(["A", "B"]), "2020-01-%02d" % (i + 2), "refactor: mv", "refactor",
                        [[0, 0, o, n, "0", pprint_rename(o, n), ""]]])
         return cs
+    if kind == "brace_dir_rename":
+        # a directory whose NAME contains braces (template trees: {{cookiecutter.name}}/...): a move out of it or into it
+        # is printed in the full-path form `old => new` (no common prefix, no common suffix)
+        tpl = rng.choice(["{{cookiecutter.name}}", "{{tpl}}", "{x}"])
+        old, new = tpl + "/setup.py", "templates/setup.py.j2"
+        if rng.random() < 0.5:
+            old, new = "templates/setup.py.j2", tpl + "/setup.py"
+        cs = [["f000001", "A", "2019-01-05", "feat: add", "feat", [[3, 0, old, old, "0", old, "create"]]],
+              ["f000002", "B", "2019-02-01", "fix: touch", "fix", [[1, 1, old, old, "0", old, ""]]],
+              ["f000003", "C", "2019-04-20", "refactor: move", "refactor", [[0, 0, old, new, "0", old + " => " + new, ""]]],
+              ["f000004", "A", "2019-05-02", "fix: after", "fix", [[2, 0, new, new, "0", new, ""]]]]
+        return cs[:rng.randint(3, 4)]
     raise ValueError(kind)
 
-FAMILIES = ["rename_into_parent", "rename_into_child", "full_path_rename", "delete_recreate", "rename_chain"]
+FAMILIES = ["brace_dir_rename", "rename_into_parent", "rename_into_child", "full_path_rename", "delete_recreate", "rename_chain"]
 
 def gen_wide_repo(rng):
     """a history with more files and more authors than a table page (18-27 of each): one file created per commit,
